@@ -561,7 +561,7 @@ func init() {
 			Budget: tierPick(tier, 55*time.Second, 14*time.Minute),
 			Rule: "each generated writing session (blockstore.ReadWrite or storage.StorageCar on a simulated disk, swarm-drawn options, optional prior history ending in Discard/Finalize + reopen) is run once to obtain its mutation log; then EVERY write boundary and, inside each write, " +
 				tierPick(tier, "every byte of writes <= 48 bytes (all v2-header, varint and CID writes) and offsets {1,2,mid,len-2,len-1} of longer ones", "every byte offset") +
-				" is materialised as a crash image, reopened with the same roots/options and judged: refused reopen leaves acknowledged sections intact; successful reopen has every acknowledged block with exact bytes, lists only blocks that were put, and continuing (re-put of the in-flight blocks, fresh puts, Finalize) yields a well-formed archive per the reference codec and Inspect(true). " +
+				" is materialised as a crash image, reopened with the same roots/options and judged: refused reopen leaves acknowledged sections intact; successful reopen has every acknowledged block with exact bytes, lists only blocks that were put, continuing (re-put of the in-flight blocks, fresh puts) and crashing again at that write boundary resumes with every acknowledged block, and Finalize then yields a well-formed archive per the reference codec and Inspect(true). " +
 				"An evaluation is one crash image; distinct non-trivial = distinct (options, session length, structural locus of the crash point, outcome)",
 			Gen: func(seed uint64, run int) *Trace {
 				t := GenC06(seed, run)
